@@ -14,11 +14,10 @@ PROP = {
         "Yorkie.CompactDocument works on the default project; for the RemoveOnDetach project the harness repeats its three steps (exclusive document lock, FindDocInfoByKey, packs.Compact)",
         "harness reads the `versionvectors` table through the memory DB's unexported go-memdb handle (reflect/unsafe)",
     ],
-    "level_text": "Theorems in Lean for every state, every request with every crafted pack, and every history of requests and compactions (unbounded): compaction is refused iff the document is attached/attaching and not forced, and a failed compaction changes nothing; a successful one raises the epoch by exactly one, nothing else ever changes an epoch, the epoch after a history is the initial one plus the number of successful compactions; a PushPull of a client whose stored epoch differs adds no row (and, unless push-only, is answered ErrEpochMismatch with the store unchanged); a stale Detach/Remove succeeds, writes no row, closes the attachment and erases the version-vector row; a fresh attach is answered with every row of the current generation and the head as checkpoint; the log stays serverSeq 1..N and the C04 delivery invariant is re-established across compactions. Tied to the real server by differential replay: compaction at every quiescent point of generated histories (normal, forced) followed by six stale/fresh follow-up mixes, plus real clients with real documents for the content half.",
-    "level_note": "One finding listed (push-only sync of a stale client is answered ok instead of ErrEpochMismatch). Content preservation is a guard in the model plus an oracle on real documents.",
+    "level_text": "Theorems in Lean for every state, every request with every crafted pack, and every history of requests and compactions (unbounded): compaction is refused iff the document is attached/attaching and not forced, and a failed compaction changes nothing; a successful one raises the epoch by exactly one, nothing else ever changes an epoch, the epoch after a history is the initial one plus the number of successful compactions; a PushPull of a client whose stored epoch differs – push-only or not – adds no row and is answered ErrEpochMismatch with nothing persisted for the client; a stale Detach/Remove succeeds, writes no row, closes the attachment and erases the version-vector row; a fresh attach is answered with every row of the current generation and the head as checkpoint; the log stays serverSeq 1..N and the C04 delivery invariant is re-established across compactions. Tied to the real server by differential replay: compaction at every quiescent point of generated histories (normal, forced) followed by six stale/fresh follow-up mixes, plus real clients with real documents for the content half.",
+    "level_note": "The one defect found (a push-only sync of a stale client was answered ok instead of ErrEpochMismatch) is repaired in /repo; the model follows the repaired tree (switch Server.stalePushOnlyRefused), the old behaviour is kept as a witness theorem. Content preservation is a guard in the model plus an oracle on real documents.",
     "technique": "Lean 4 proof (case analysis over the phase functions, invariants by induction over event histories) + differential replay against an in-process server + content oracle on real documents",
     "partial": [
-        "stale_push_refused: false for push-only syncs on the pinned tree (stale_pushonly_witness); proved for every non-push-only request; `stale_push_no_rows` (no row is added) holds for both",
         "compact_content: the rebuild-compare step is a guard over an abstract content semantics; that the guard's comparison is meaningful for real documents is checked by the cdoc oracle only",
         "C04's no_echo / per_actor_clientSeq_ordered (ghost generation fields) are not re-established across compactions; log_gapfree and the delivery invariant (delivery_exact, checkpoint bounds) are",
     ],
